@@ -290,6 +290,9 @@ def shift(array, shift, out=None, order=3, mode='constant', cval=0.0,
     _check_mode(mode, cval, 'interpolation.shift')
     output = internal._get_output(array, out, 'interpolate.shift', dtype=np.float64, output=output)
     shift = np.ascontiguousarray(shift, dtype=np.float64)
+    if not np.all(np.isfinite(shift)):
+        # the native code turns the coordinates into array indices
+        raise ValueError('mahotas.interpolation.shift: shift must be finite')
     shift *= -1
     _interpolate.zoom_shift(array, None, shift, output, order, mode2int[mode], cval)
     return output
